@@ -152,4 +152,28 @@ def run(ctx):
           and (F.fns[nm].asserts or any(re.search(r"unwrap|expect|panick|::index", c[0]) for c in F.fns[nm].calls))]
     t2, d2, l2 = check_panic_surface(ctx, "traversal-panic-surface", tb, audited_tr, what="sbor traversal")
     ctx.ob("traversal-panic-surface|enumerated", t2 >= 12, f"{t2} panic-capable construct(s) in sbor::traversal, {l2} within the audited table")
-    ctx.assume("agreement of the depth accounting between decoder, traverser and encoder (off-by-one) is value-level and not decided")
+    ctx.rule("T2 (from the descent): in VecTraverser::step, once a container has been pushed onto the ancestor path, every read of child content "
+             "(ActionHandler::read_value / read_byte_array) is behind the `ancestor_path.len() >= config.max_depth` == false edge — the byte-array "
+             "batch read included, so the traverser rejects exactly the depths the value decoder and encoder reject")
+    n = "sbor::traversal::untyped::traverser::VecTraverser::step"
+    if ctx.anchor(n):
+        b = ctx.body(n)
+        pushes = [bb for bb, t in b.calls(r"alloc::vec::Vec(<[^>]*>)?::push$") if origin_names(b, t["args"][0]) == {"param:4"}]
+        ctx.ob("traverser-depth|descent-site", len(pushes) == 1, f"{len(pushes)} push(es) onto the ancestor path", b.loc())
+        for pb in pushes[:1]:
+            start = b.term(pb)["t"]
+            region = b.reach((start,))
+            reads = [bb for bb in call_blocks(b, r"ActionHandler(<[^>]*>)?::(read_value|read_byte_array)$") if bb in region]
+            ctx.ob("traverser-depth|child-reads-after-descent", len(reads) >= 2, f"{len(reads)} child-content read(s) reachable after the push (value and byte-array batch)", b.loc(pb))
+            g = G_bin("Ge", [r"Vec(<[^>]*>)?::len$"], [r"^param:2$"], "ancestor_path.len() >= config.max_depth is false", False)
+            edges, blocks = pass_edges(b, g)
+            blocks = [x for x in blocks if any(a.proj[-1:] == (".max_depth",) for a in b.origins(b.term(x)["o"], deep=True))]
+            edges = [(x, y) for x, y in edges if x in blocks]
+            ok, wit = (False, None)
+            if blocks:
+                ok, wit = b.unreachable_without(reads, edges, start)
+            ctx.ob("traverser-depth|every-child-read-behind-depth-test", bool(blocks) and ok,
+                   f"depth test at bb{blocks} dominates every child read after the descent" if ok else
+                   ("no depth test against config.max_depth found" if not blocks else f"a child read is reachable WITHOUT the depth test: {b.fmt_path(wit)}"),
+                   b.loc(wit[-1]) if wit else b.loc(pb))
+    ctx.assume("agreement of the depth accounting between decoder, traverser and encoder beyond 'every descent is depth-tested' (the off-by-one itself) is value-level and not decided")
